@@ -14,6 +14,7 @@ type instOpts struct {
 	time      bool
 	mapRanges bool
 	mapSites  []rangeSite
+	selects   bool
 	extra     map[string]string
 }
 
@@ -74,6 +75,19 @@ func instrument(name string, src []byte, o instOpts) ([]byte, map[string]int, er
 		edits = append(edits, edit{pend, pend, `; import simsync "verif/simkit/simsync"`})
 		header = "//go:build go1.21\n\n//line " + name + ":1\n"
 	}
+	if o.selects {
+		se, nre, nskip := selectEdits(fset, f, src, name)
+		edits = append(edits, se...)
+		stats["selects_rewritten"] += nre
+		stats["selects_left_random"] += nskip
+		if nre > 0 && header == "" {
+			pend := fset.Position(f.Name.End()).Offset
+			edits = append(edits, edit{pend, pend, `; import verifsel "verif/simkit/simsync"`})
+		} else if nre > 0 {
+			pend := fset.Position(f.Name.End()).Offset
+			edits = append(edits, edit{pend, pend, `; import verifsel "verif/simkit/simsync"`})
+		}
+	}
 	// count constructs that stay nondeterministic, for the evidence file
 	ast.Inspect(f, func(n ast.Node) bool {
 		if s, ok := n.(*ast.SelectStmt); ok {
@@ -122,4 +136,136 @@ func lastElem(p string) string {
 		}
 	}
 	return p
+}
+
+
+// selectEdits determinises `select` statements with >= 2 communication cases
+// and no default: which of several cases that are ready on entry is taken is
+// otherwise decided by the runtime's private random source. Before the
+// original statement each case is polled alone (non-blocking), starting from
+// a tape-chosen case and going round; the first ready one runs its (textually
+// duplicated) body. If none is ready the original blocking select follows - a
+// goroutine blocked there is committed to its first waker. No loop is
+// introduced, so break/continue/return inside the bodies keep their meaning.
+// Selects that carry a label, declare labels inside, or evaluate calls with
+// possible side effects in their communication clauses are left alone.
+func selectEdits(fset *token.FileSet, f *ast.File, src []byte, name string) ([]edit, int, int) {
+	var edits []edit
+	done, skipped := 0, 0
+	labeled := map[ast.Stmt]bool{}
+	ast.Inspect(f, func(n ast.Node) bool {
+		if l, ok := n.(*ast.LabeledStmt); ok {
+			labeled[l.Stmt] = true
+		}
+		return true
+	})
+	idx := 0
+	ast.Inspect(f, func(n ast.Node) bool {
+		sel, ok := n.(*ast.SelectStmt)
+		if !ok {
+			return true
+		}
+		var cases []*ast.CommClause
+		hasDefault := false
+		for _, c := range sel.Body.List {
+			cc := c.(*ast.CommClause)
+			if cc.Comm == nil {
+				hasDefault = true
+			} else {
+				cases = append(cases, cc)
+			}
+		}
+		if hasDefault || len(cases) < 2 {
+			return true
+		}
+		ok = !labeled[sel]
+		for _, cc := range cases {
+			if !commIsPure(cc.Comm) {
+				ok = false
+			}
+			for _, st := range cc.Body {
+				ast.Inspect(st, func(m ast.Node) bool {
+					if _, isL := m.(*ast.LabeledStmt); isL {
+						ok = false
+					}
+					return true
+				})
+			}
+		}
+		if !ok || len(cases) > 6 {
+			skipped++
+			return true
+		}
+		idx++
+		off := func(p token.Pos) int { return fset.Position(p).Offset }
+		nc := len(cases)
+		flag := fmt.Sprintf("verifSel%d", idx)
+		start := fmt.Sprintf("verifSelK%d", idx)
+		var b []byte
+		b = append(b, fmt.Sprintf("%s, %s := false, verifsel.SelectStart(%d); _ = %s\n", flag, start, nc, start)...)
+		for attempt := 0; attempt < nc; attempt++ {
+			b = append(b, fmt.Sprintf("if !%s { switch (%s + %d) %% %d {\n", flag, start, attempt, nc)...)
+			for ci, cc := range cases {
+				comm := string(src[off(cc.Comm.Pos()):off(cc.Comm.End())])
+				body := ""
+				if len(cc.Body) > 0 {
+					body = string(src[off(cc.Body[0].Pos()):off(cc.Body[len(cc.Body)-1].End())])
+				}
+				b = append(b, fmt.Sprintf("case %d:\nselect {\ncase %s:\n%s = true\n%s\ndefault:\n}\n", ci, comm, flag, body)...)
+			}
+			b = append(b, "}}\n"...)
+		}
+		line := fset.Position(sel.Pos()).Line
+		// `if !flag {` + original select + `}`: the closing brace is appended after the statement
+		b = append(b, fmt.Sprintf("if !%s {\n//line %s:%d\n", flag, name, line)...)
+		edits = append(edits, edit{off(sel.Pos()), off(sel.Pos()), string(b)})
+		edits = append(edits, edit{off(sel.End()), off(sel.End()), " }"})
+		done++
+		return true
+	})
+	return edits, done, skipped
+}
+
+// commIsPure tells whether evaluating the channel (and value) expressions of a
+// communication clause several times is harmless.
+func commIsPure(st ast.Stmt) bool {
+	pure := true
+	check := func(e ast.Expr, recvChan bool) {
+		ast.Inspect(e, func(n ast.Node) bool {
+			call, ok := n.(*ast.CallExpr)
+			if !ok {
+				return true
+			}
+			if recvChan {
+				if se, ok := call.Fun.(*ast.SelectorExpr); ok {
+					if len(call.Args) == 0 {
+						return true // getter-like: ctx.Done(), w.Watch(), t.Chan()
+					}
+					if id, ok := se.X.(*ast.Ident); ok && id.Name == "time" && (se.Sel.Name == "After" || se.Sel.Name == "Tick") {
+						return true
+					}
+				}
+			}
+			pure = false
+			return false
+		})
+	}
+	switch s := st.(type) {
+	case *ast.SendStmt:
+		check(s.Chan, true)
+		check(s.Value, false)
+	case *ast.ExprStmt:
+		if u, ok := s.X.(*ast.UnaryExpr); ok {
+			check(u.X, true)
+		}
+	case *ast.AssignStmt:
+		for _, r := range s.Rhs {
+			if u, ok := r.(*ast.UnaryExpr); ok {
+				check(u.X, true)
+			} else {
+				pure = false
+			}
+		}
+	}
+	return pure
 }
